@@ -7,6 +7,7 @@
 -/
 import Jence.Lemmas.QValue
 import Jence.Lemmas.IdVal
+import Jence.Lemmas.NoOverflow
 namespace Jence.Props.C19
 open Jence
 
@@ -102,6 +103,21 @@ theorem reported_score_is_last_iteration (R : Rules) (cfg : Cfg) (g : Game) (cou
 example (tt : TT) (rep : RepTable) : (Env.fresh tt rep).ply = 0 ∧ (Env.fresh tt rep).rep.pre = rep.pre ∧
     -Gen.INFINITY < Gen.INFINITY ∧ (0 : Nat) ≤ 63 ∧ 0 + negaFuel ≥ Gen.MAX_PLY := by
   refine ⟨rfl, rfl, by decide, by decide, by decide⟩
+
+
+/-- **T19.3 with the overflow hypothesis discharged**: when the loop starts at the root with room in the history array
+    (`Safe`: at ply 0, 65 free slots) and ends without having been stopped, every iteration of depth 1 or 2 is a sound
+    answer for the minimax value of its depth. -/
+theorem iterations_are_sound_minimax_of_room (R : Rules) (cfg : Cfg) (hbyp : cfg.ttBypass = true) (g : Game) (H : List UInt64)
+    (count cur : Nat) (alpha beta score : Int) (e : Env) (hab : alpha < beta) (hp : e.ply = 0) (hH : e.rep.pre = H)
+    (hsafe : Safe e) (hrun : (idLoop R cfg g count cur alpha beta score e).2.2.stopping = false) :
+    ∀ it ∈ idTrace R cfg g count cur alpha beta e, it.depth ≤ 2 →
+      it.alpha < it.beta ∧ Sound it.score (nVal R H negaFuel g it.depth 0) it.alpha it.beta :=
+  idLoop_value R cfg hbyp g H count cur alpha beta score e hab hp hH ⟨idLoop_safe R cfg g count cur alpha beta score e hsafe, hrun⟩
+
+/-- `search` starts the loop that way whenever the history handed in leaves room -/
+example (tt : TT) (rep : RepTable) (h : HistoryRoom rep) : Safe (Env.fresh tt rep) := fresh_safe tt rep h.1 h.2
+example : HistoryRoom RepTable.new := new_room
 
 /-! Non-vacuity of `Clean`: a concrete run (toy rules: one move from the root, none after it) that ends neither stopped
     nor overflowed - and returns the minimax value: the negated evaluation at depth 1, stalemate below the root at depth 2. -/
